@@ -288,6 +288,16 @@ pub const EDIT_KINDS: [&str; 15] = [
     "add-record", "remove-record", "rename-record", "add-link", "remove-link", "change-replacement-dangling-to-dangling",
 ];
 
+/// New name of a rename edit: a fresh name, the old name extended (long names then share a long
+/// prefix), or the old name with the ASCII case of its letters swapped.
+fn renamed(old: &str, fresh: &str, sel: u16) -> String {
+    match sel % 3 {
+        0 => format!("{old}{fresh}"),
+        1 if old.chars().any(|c| c.is_ascii_alphabetic()) => old.chars().map(|c| if c.is_ascii_lowercase() { c.to_ascii_uppercase() } else { c.to_ascii_lowercase() }).collect(),
+        _ => fresh.to_string(),
+    }
+}
+
 pub fn apply_edit(f: &mut Facts, kind: usize, p: [u16; 3], name: &str) -> Option<&'static str> {
     let m = Model::new(f);
     let n = f.terms.len();
@@ -301,8 +311,7 @@ pub fn apply_edit(f: &mut Facts, kind: usize, p: [u16; 3], name: &str) -> Option
     match kind {
         0 => {
             let t = &mut f.terms[pick(p[0], n)];
-            // one rename in three extends the old name (long names then share a long prefix)
-            let new_name = if p[2] % 3 == 0 { format!("{}{name}", t.name) } else { name.to_string() };
+            let new_name = renamed(&t.name, name, p[2]);
             if t.name == new_name {
                 return None;
             }
@@ -393,7 +402,7 @@ pub fn apply_edit(f: &mut Facts, kind: usize, p: [u16; 3], name: &str) -> Option
                 return None;
             }
             let i = pick(p[1], f.recs[k].len());
-            let new_name = if p[2] % 3 == 0 { format!("{}{name}", f.recs[k][i].name) } else { name.to_string() };
+            let new_name = renamed(&f.recs[k][i].name, name, p[2]);
             if f.recs[k][i].name == new_name {
                 return None;
             }
@@ -474,7 +483,7 @@ impl Property for C18 {
         "C18"
     }
     fn rule(&self) -> String {
-        "Generated: a base fact set (both ontologies built through own v3 / v2 / v1 bytes, the as_bytes round trip or JAX files; obsolete terms, replacements to existing and to non-existing ids, records of all kinds) and an edit script of 0-4 edits out of 15 kinds (rename term, add/remove parent link, flip obsolete, set replacement to an existing / non-existing id, clear replacement, change replacement between two ids that are not terms, add/remove term, add/remove/rename record, add/remove link). Oracle: the difference computed on the two fact sets: added/removed id sets per entity kind; changed terms with exact name pair, added/removed parent sets, obsolete pair, replacement id pair; changed records with name pair, added/removed terms, n_terms; every list free of duplicates; compare(new,old) is the mirror image; compare(o,o) reports nothing and compare(o, roundtrip(o)) exactly the names the binary format cuts at 255 bytes (text path: names up to 300 bytes; one rename in three extends the old name, so that long names share a long prefix). evaluations = comparisons. Non-trivial = the two fact sets differ; every edit kind must occur as a single-edit script in a run; distinct by hash of the case.".into()
+        "Generated: a base fact set (both ontologies built through own v3 / v2 / v1 bytes, the as_bytes round trip or JAX files; obsolete terms, replacements to existing and to non-existing ids, records of all kinds) and an edit script of 0-4 edits out of 15 kinds (rename term, add/remove parent link, flip obsolete, set replacement to an existing / non-existing id, clear replacement, change replacement between two ids that are not terms, add/remove term, add/remove/rename record, add/remove link). Oracle: the difference computed on the two fact sets: added/removed id sets per entity kind; changed terms with exact name pair, added/removed parent sets, obsolete pair, replacement id pair; changed records with name pair, added/removed terms, n_terms; every list free of duplicates; compare(new,old) is the mirror image; compare(o,o) reports nothing and compare(o, roundtrip(o)) exactly the names the binary format cuts at 255 bytes (text path: names up to 300 bytes; one rename in three extends the old name, so that long names share a long prefix, one in three only swaps the ASCII case of its letters). evaluations = comparisons. Non-trivial = the two fact sets differ; every edit kind must occur as a single-edit script in a run; distinct by hash of the case.".into()
     }
     fn assumptions(&self) -> Vec<String> {
         vec!["'replacement' of a term is the replacement id stored with it (replacement_id), whether or not that id is a term of the same ontology".into()]
